@@ -8,7 +8,7 @@ pub fn def() -> PropDef {
     PropDef {
         id: "C07",
         builds: BOTH,
-        rule: "F: every fragment sequence over a dyadic (width, whitespace, penalty) menu up to length n x 10 line-width lists, real wrap_first_fit compared with the greedy rule of the statement; T: every text over the C02 menus x first-fit configurations, the located lines mapped to runs of the public pipeline's fragments; non-trivial = a result with >= 2 lines",
+        rule: "F: every fragment sequence over a dyadic (width, whitespace, penalty) menu up to length n x 11 line-width lists (one with an infinite width), real wrap_first_fit compared with the greedy rule of the statement; T: every text over the C02 menus x first-fit configurations, the located lines mapped to runs of the public pipeline's fragments; non-trivial = a result with >= 2 lines",
         assumptions: BASE_ASSUMPTIONS,
         floor: |t| t.pick(100_000, 300_000),
         run,
@@ -16,7 +16,7 @@ pub fn def() -> PropDef {
 }
 
 fn width_lists() -> Vec<Vec<f64>> {
-    vec![vec![], vec![0.0], vec![1.0], vec![3.0], vec![3.5], vec![6.0], vec![2.0, 5.0], vec![5.0, 2.0], vec![1.0, 2.0, 3.0], vec![4.0, 0.0, 4.0]]
+    vec![vec![], vec![0.0], vec![1.0], vec![3.0], vec![3.5], vec![6.0], vec![2.0, 5.0], vec![5.0, 2.0], vec![1.0, 2.0, 3.0], vec![4.0, 0.0, 4.0], vec![2.0, f64::INFINITY]]
 }
 
 fn f_space(r: &mut Run, name: &str, menu_f: Vec<Frag>, n: usize) -> Result<(), MachineryError> {
